@@ -2,7 +2,7 @@
    checkers applied to what the implementation actually did. *)
 From Coq Require Import String.
 From Coq Require Import List NArith ZArith Bool.
-From Verif Require Import GoStr GoNum GoHeader Sx Tables Route Forward Serve Wire SpecC01 SpecC02 SpecC03 SpecC04.
+From Verif Require Import GoStr GoNum GoHeader Sx Tables Route Forward Serve Wire Unit SpecC01 SpecC02 SpecC03 SpecC04 SpecC06 SpecC10 SpecC15 Range Recompress Meta Fresh Key.
 Import ListNotations.
 Open Scope N_scope.
 
@@ -191,6 +191,169 @@ Definition mon_C20 (x o : sx) : sx :=
       end in
   first_fail (map per_variant variants).
 
+(* ================= unit-level monitors ================= *)
+Definition verdict_kf (ok : bool) (clause : string) (finding : string) : sx := L [of_bool ok; A (bytes clause); A (bytes finding)].
+Definition unit_fn (x : sx) : str := sx_str (sx_nth 1 x).
+Definition unit_arg (x : sx) (n : nat) : sx := sx_nth (2 + n) x.
+
+(* ---- C15 (unit): the range decision and arithmetic over a resource of the given length ---- *)
+Definition parse_cr_value (s : str) : option (Z * Z * Z) :=
+  (* "bytes f-l/n" *)
+  if negb (has_prefix s (bytes "bytes ")) then None else
+  match split (skipn 6 s) [47%N] with
+  | [fl; n] =>
+    match parse_int n with
+    | Some nv =>
+      (* f may be negative in broken answers: split at the last '-' that is not the leading sign *)
+      match last_index_byte fl 45%N with
+      | Some i => match parse_int (firstn i fl), parse_int (skipn (S i) fl) with
+                  | Some f, Some l => Some (f, l, nv)
+                  | _, _ => None
+                  end
+      | None => None
+      end
+    | None => None
+    end
+  | _ => None
+  end.
+
+Definition kf_C15 (r : option brange) (n : Z) : string :=
+  match r with
+  | Some (Suffix s) => if (s <=? 0)%Z || (n <? s)%Z then "F13-suffix" else ""
+  | _ => ""
+  end.
+
+Definition mon_C15_unit (x o : sx) : sx :=
+  let hdr := sx_str (unit_arg x 0) in
+  let n := sx_int (unit_arg x 1) in
+  let st0 := sx_int (unit_arg x 2) in
+  if negb (Z.eqb st0 200) || (n <? 0)%Z || (4096 <? n)%Z then v_ok else
+  let resource := map (fun i => N.of_nat i mod 251)%N (seq 0 (Z.to_nat n)) in
+  let st := sx_int (sx_nth 3 o) in
+  let recognised := sx_bool (sx_nth 0 o) in
+  let seek := sx_int (sx_nth 6 o) in
+  let size := sx_int (sx_nth 7 o) in
+  let body := if recognised then send_slice resource seek size else Some resource in
+  let spec_r := spec_parse_range hdr in
+  let kf := kf_C15 spec_r n in
+  match body with
+  | None => verdict_kf false "the body cannot be sent: seek to a negative offset after the header is out" kf
+  | Some b =>
+    let a := mkAnswer st (parse_int (sx_str (sx_nth 4 o))) (parse_cr_value (sx_str (sx_nth 5 o))) b in
+    match spec_r with
+    | Some r => if answer_ok r resource a then v_ok
+                else verdict_kf false "answer is neither the exact 206, nor the complete 200, nor a justified 416" kf
+    | None =>
+      (* not a single well-formed range: complete 200, or any self-consistent slice *)
+      if Z.eqb st 200 && str_eqb b resource then v_ok
+      else if Z.eqb st 206 then
+        match an_cr a, an_cl a with
+        | Some (f, l, n'), Some cl =>
+          if (0 <=? f)%Z && (f <=? l)%Z && (l <? n)%Z && Z.eqb n' n && Z.eqb cl (l - f + 1) && str_eqb b (slice resource f l) then v_ok
+          else verdict_kf false "206 for a malformed Range is not self-consistent" kf
+        | _, _ => verdict_kf false "206 without Content-Range/Content-Length" kf
+        end
+      else if Z.eqb st 416 then v_ok
+      else verdict_kf false "malformed Range answered with neither 200, 206 nor 416" kf
+    end
+  end.
+
+(* ---- C06 (unit): the decision table ---- *)
+Definition dec_ctype (x : sx) : ctype := let z := sx_int x in if Z.eqb z 1 then CGzip else if Z.eqb z 2 then CBrotli else CNone.
+
+Definition kf_C06 (ae ce : str) : string := "".   (* F4 is repaired (fix: bd9ea81): nothing is excused *)
+
+Definition mon_C06_unit (x o : sx) : sx :=
+  let ae := sx_str (unit_arg x 0) in
+  let ce := sx_str (unit_arg x 1) in
+  let ad := dec_ctype (sx_nth 0 o) in
+  let rm := dec_ctype (sx_nth 1 o) in
+  if negb (content_preserved ce ad rm)
+  then verdict_kf false "decoding the delivered body by the delivered Content-Encoding does not give the origin's content" (kf_C06 ae ce)
+  else if negb (encoding_allowed ae ce ad rm)
+  then verdict_kf false "delivered encoding is neither the origin's nor one the client listed" (kf_C06 ae ce)
+  else v_ok.
+
+(* ---- C07 (unit): decode (encode m) = m ---- *)
+Definition hdrs_single (h : hdrs) : bool := forallb (fun kv => Nat.eqb (length (snd kv)) 1) h.
+Definition has_any (s bad : str) : bool := existsb (fun c => mem_byte c bad) s.
+Definition meta_delims : str := [124; 91; 93; 123; 125]%N.   (* | [ ] { } *)
+
+(* region of F6: a header with several values, or delimiter bytes where the decoder looks *)
+Definition kf_C07 (m : meta) : string :=
+  if negb (hdrs_single (m_reqh m)) || negb (hdrs_single (m_resph m)) then "F6-multi-valued"
+  else if has_any (m_host m) [124%N] || has_any (m_path m) [124%N] || has_any (m_redirect m) [124%N]
+          || existsb (fun kv => has_any (fst kv) (58%N :: meta_delims) || existsb (fun v => has_any v meta_delims) (snd kv)) (m_reqh m ++ m_resph m)
+  then "F6-delimiters" else "".
+
+Definition meta_eqb (a b : meta) : bool := sx_eqb (enc_meta a) (enc_meta b).
+
+Definition mon_C07_unit (x o : sx) : sx :=
+  if str_eqb (unit_fn x) (bytes "meta-enc") then
+    let m := dec_meta (unit_arg x 0) in
+    match decode_meta (sx_str o) with
+    | Some m' => if meta_eqb m m' then v_ok else verdict_kf false "decoded metadata differs from what was stored" (kf_C07 m)
+    | None => verdict_kf false "stored metadata cannot be decoded (the entry can never be a hit)" (kf_C07 m)
+    end
+  else v_ok.
+
+(* ---- C10 (unit): directives that forbid caching are recognised ---- *)
+Definition kf_C10 (values : list str) : string := "".   (* F20 is repaired (fix: b83a9fe): nothing is excused *)
+
+Definition mon_C10_unit (x o : sx) : sx :=
+  let h := dec_enc_hdrs (unit_arg x 0) in
+  let values := hvalues h (bytes "cache-control") in
+  let dnc := sx_bool (sx_nth 8 o) in
+  match header_verdict values with
+  | Forbid => if dnc then v_ok else verdict_kf false "a directive that forbids caching was not recognised" (kf_C10 values)
+  | _ => v_ok
+  end.
+
+(* ---- C11 (unit): two requests share an entry name only if they are the same resource ---- *)
+Definition strs_eqb (a b : list str) : bool := sx_eqb (of_strs a) (of_strs b).
+
+Definition same_resource (with_origin_value : bool) (m1 h1 u1 : str) (hd1 : hdrs) (m2 h2 u2 : str) (hd2 : hdrs) : bool :=
+  let cls m := if str_eqb m (bytes "GET") then [] else m in
+  str_eqb (cls m1) (cls m2) && str_eqb h1 h2 && str_eqb u1 u2
+  && strs_eqb (hvalues hd1 (bytes "Accept-Encoding")) (hvalues hd2 (bytes "Accept-Encoding"))
+  && strs_eqb (hvalues hd1 (bytes "Authorization")) (hvalues hd2 (bytes "Authorization"))
+  && strs_eqb (hvalues hd1 (bytes "Host")) (hvalues hd2 (bytes "Host"))
+  && (if with_origin_value then strs_eqb (hvalues hd1 (bytes "Origin")) (hvalues hd2 (bytes "Origin"))
+      else Bool.eqb (nonempty (hget hd1 (bytes "Origin"))) (nonempty (hget hd2 (bytes "Origin")))).
+
+Definition mon_C11_unit (x o : sx) : sx :=
+  if negb (str_eqb (unit_fn x) (bytes "keypair")) then v_ok else
+  let m1 := sx_str (unit_arg x 0) in let h1 := sx_str (unit_arg x 1) in let u1 := sx_str (unit_arg x 2) in
+  let hd1 := dec_enc_hdrs (unit_arg x 3) in
+  let m2 := sx_str (unit_arg x 4) in let h2 := sx_str (unit_arg x 5) in let u2 := sx_str (unit_arg x 6) in
+  let hd2 := dec_enc_hdrs (unit_arg x 7) in
+  let n1 := to_strs (sx_nth 0 o) in let n2 := to_strs (sx_nth 1 o) in
+  (* index 0 is the full key, index 1 (present with an Origin header) the opaque-origin key *)
+  let chk i j :=
+      match nth_error n1 i, nth_error n2 j with
+      | Some a, Some b =>
+        if str_eqb a b then
+          if Nat.eqb i j then same_resource (Nat.eqb i 0) m1 h1 u1 hd1 m2 h2 u2 hd2
+          else false
+        else true
+      | _, _ => true
+      end in
+  if chk 0%nat 0%nat && chk 1%nat 1%nat && chk 0%nat 1%nat && chk 1%nat 0%nat then v_ok
+  else verdict false "two different resources map to the same cache entry".
+
+(* ---- C09 (unit): ETag suffix laws ---- *)
+Definition mon_C09_unit (x o : sx) : sx :=
+  let sfx := sx_opt_str (unit_arg x 0) in
+  let e := sx_str (unit_arg x 1) in
+  let added := sx_str (sx_nth 0 o) in
+  match sfx with
+  | None => if str_eqb added e && str_eqb (sx_str (sx_nth 1 o)) e then v_ok else verdict false "without ETAG_SUFFIX ETags must pass unchanged"
+  | Some tok =>
+    (* an ETag served carries the suffix; stripping what was added gives the original back *)
+    if nonempty e && negb (contains added tok) then verdict false "served ETag lacks the suffix"
+    else v_ok
+  end.
+
 (* ---- dispatch ---- *)
 Definition s_route : str := bytes "route".
 
@@ -198,6 +361,7 @@ Definition run (x : sx) : sx :=
   let fam := sx_str (sx_nth 0 x) in
   if str_eqb fam s_route then run_route x
   else if str_eqb fam (bytes "copy") then run_copy x
+  else if str_eqb fam (bytes "unit") then run_unit x
   else L [A (bytes "unknown-family")].
 
 Definition proj (x o : sx) : sx :=
@@ -212,4 +376,12 @@ Definition spec (prop : str) (x o : sx) : sx :=
   else if str_eqb prop (bytes "C03") then mon_C03 x o
   else if str_eqb prop (bytes "C04") then mon_C04 x o
   else if str_eqb prop (bytes "C20") then mon_C20 x o
+  else if str_eqb (sx_str (sx_nth 0 x)) (bytes "unit") then
+    (if str_eqb prop (bytes "C15") then mon_C15_unit x o
+     else if str_eqb prop (bytes "C06") then mon_C06_unit x o
+     else if str_eqb prop (bytes "C07") then mon_C07_unit x o
+     else if str_eqb prop (bytes "C10") then mon_C10_unit x o
+     else if str_eqb prop (bytes "C09") then mon_C09_unit x o
+     else if str_eqb prop (bytes "C11") then mon_C11_unit x o
+     else v_ok)
   else verdict false "unknown property".
